@@ -4,7 +4,7 @@
 # and stores it as /verif/seeded/<PROP>-<seed-name>/ (patch.diff, demo_test.go, notes.txt, confirm.txt).
 set -u
 prop=$1; n=$2; pkg=$3; name=$4
-src=/tmp/seedout/$prop/$n; wt=/tmp/wt-$prop; dst=/verif/seeded/$prop-$name
+src=${SEEDOUT:-/tmp/seedout}/$prop/$n; wt=${WTPFX:-/tmp/wt-}$prop; dst=/verif/seeded/$prop-$name
 [ -f $src/patch.diff ] || { echo "no patch in $src"; exit 2; }
 out=$(/verif/tools/confirm_seed.sh $wt $src $pkg TestSeedDemo 2>&1)
 echo "$out"
